@@ -10,9 +10,13 @@ import (
 	"encoding/json"
 	"fmt"
 	"math/rand"
+	"runtime"
 	"strconv"
 	"strings"
+	"sync"
 	"time"
+
+	"github.com/lmorg/murex/lang"
 
 	"verifharness/coqlit"
 )
@@ -27,12 +31,14 @@ type c39Node struct {
 	F    int       `json:"f,omitempty"`    // call: function id (>= 1)
 	Name string    `json:"nm,omitempty"`   // break / continue: if foreach while fN (f0 = the program itself)
 	X    int       `json:"x,omitempty"`    // return: exit number
-	Body []c39Node `json:"body,omitempty"` // if / loops / call
+	Body []c39Node `json:"body,omitempty"` // if / switch (case) / loops / try / call
+	Else []c39Node `json:"else,omitempty"` // if: else block; switch: default block
 }
 
 type c39Case struct {
 	Main  []c39Node `json:"main"`
 	Class string    `json:"class"`
+	Runs  int       `json:"runs,omitempty"` // > 1: run that many times under schedule perturbation, outputs must be identical
 }
 
 type c39Obs struct {
@@ -67,7 +73,39 @@ func c39Emit(b *strings.Builder, defs *strings.Builder, nodes []c39Node, ind str
 			}
 			fmt.Fprintf(b, "%sif { %s } then {\n", ind, c)
 			c39Emit(b, defs, n.Body, ind+"  ")
+			if len(n.Else) > 0 {
+				fmt.Fprintf(b, "%s} else {\n", ind)
+				c39Emit(b, defs, n.Else, ind+"  ")
+			}
 			fmt.Fprintf(b, "%s}\n", ind)
+		case "switch":
+			c := n.Cond
+			if c == "eq" {
+				c = fmt.Sprintf("$v%d == %d", n.ID, n.M)
+			}
+			fmt.Fprintf(b, "%sswitch {\n%s  case { %s } {\n", ind, ind, c)
+			c39Emit(b, defs, n.Body, ind+"    ")
+			fmt.Fprintf(b, "%s  }\n%s  default {\n", ind, ind)
+			c39Emit(b, defs, n.Else, ind+"    ")
+			fmt.Fprintf(b, "%s  }\n%s}\n", ind, ind)
+		case "formap":
+			fmt.Fprintf(b, "%sa [1..%d] -> formap k%d v%d {\n", ind, n.N, n.ID, n.ID)
+			c39Emit(b, defs, n.Body, ind+"  ")
+			fmt.Fprintf(b, "%s}\n", ind)
+		case "for":
+			fmt.Fprintf(b, "%sfor {$v%d=1; $v%d<%d; $v%d++} {\n", ind, n.ID, n.ID, n.N+1, n.ID)
+			c39Emit(b, defs, n.Body, ind+"  ")
+			fmt.Fprintf(b, "%s}\n", ind)
+		case "while1":
+			fmt.Fprintf(b, "%sv%d = 0\n%swhile {\n%s  v%d = $v%d + 1\n", ind, n.ID, ind, ind, n.ID, n.ID)
+			c39Emit(b, defs, n.Body, ind+"  ")
+			fmt.Fprintf(b, "%s  $v%d < %d\n%s}\n", ind, n.ID, n.N, ind)
+		case "try", "trypipe":
+			fmt.Fprintf(b, "%s%s {\n", ind, n.K)
+			c39Emit(b, defs, n.Body, ind+"  ")
+			fmt.Fprintf(b, "%s}\n", ind)
+		case "breakany":
+			fmt.Fprintf(b, "%sbreak\n", ind)
 		case "foreach":
 			fmt.Fprintf(b, "%sa [1..%d] -> foreach v%d {\n", ind, n.N, n.ID)
 			c39Emit(b, defs, n.Body, ind+"  ")
@@ -111,6 +149,16 @@ func c39CoqName(nm string) string {
 		return "NForeach"
 	case "while":
 		return "NWhile"
+	case "for":
+		return "NFor"
+	case "formap":
+		return "NFormap"
+	case "switch":
+		return "NSwitch"
+	case "try":
+		return "NTry"
+	case "trypipe":
+		return "NTrypipe"
 	}
 	k, _ := strconv.Atoi(strings.TrimPrefix(nm, "f"))
 	return fmt.Sprintf("(NFunc %d)", k)
@@ -131,11 +179,25 @@ func c39CoqBlock(nodes []c39Node) string {
 			case "eq":
 				c = fmt.Sprintf("(CEq %d %d)", n.ID, n.M)
 			}
-			fmt.Fprintf(&b, "(If %s %s)", c, c39CoqBlock(n.Body))
-		case "foreach":
-			fmt.Fprintf(&b, "(Foreach %d %s %s)", n.ID, coqlit.Nat(n.N), c39CoqBlock(n.Body))
-		case "while":
-			fmt.Fprintf(&b, "(While %d %s %s)", n.ID, coqlit.Nat(n.N), c39CoqBlock(n.Body))
+			fmt.Fprintf(&b, "(Branch BIf %s %s %s)", c, c39CoqBlock(n.Body), c39CoqBlock(n.Else))
+		case "switch":
+			c := "CTrue"
+			switch n.Cond {
+			case "false":
+				c = "CFalse"
+			case "eq":
+				c = fmt.Sprintf("(CEq %d %d)", n.ID, n.M)
+			}
+			fmt.Fprintf(&b, "(Branch BSwitch %s %s %s)", c, c39CoqBlock(n.Body), c39CoqBlock(n.Else))
+		case "foreach", "while", "for", "formap", "while1":
+			lk := map[string]string{"foreach": "LForeach", "while": "LWhile", "for": "LFor", "formap": "LFormap", "while1": "LWhile1"}[n.K]
+			fmt.Fprintf(&b, "(Loop %s %d %s %s)", lk, n.ID, coqlit.Nat(n.N), c39CoqBlock(n.Body))
+		case "try":
+			fmt.Fprintf(&b, "(Try false %s)", c39CoqBlock(n.Body))
+		case "trypipe":
+			fmt.Fprintf(&b, "(Try true %s)", c39CoqBlock(n.Body))
+		case "breakany":
+			b.WriteString("BreakAny")
 		case "call":
 			fmt.Fprintf(&b, "(Call %d %s)", n.F, c39CoqBlock(n.Body))
 		case "break":
@@ -167,9 +229,10 @@ type c39Gen struct {
 func (g *c39Gen) foreignName(encl []string) (string, bool) {
 	cand := []string{}
 	for _, nm := range g.outer {
+		nm = c39Base(nm)
 		found := false
 		for _, e := range encl {
-			found = found || e == nm
+			found = found || c39Base(e) == nm
 		}
 		if !found {
 			cand = append(cand, nm)
@@ -182,6 +245,19 @@ func (g *c39Gen) foreignName(encl []string) (string, bool) {
 }
 
 type c39Loop struct{ id, n int }
+
+// an entry of encl is a block name; "while!" is a one-block while (its name is `while`)
+func c39Base(nm string) string { return strings.TrimSuffix(nm, "!") }
+
+// the entry a name resolves to: the innermost one with that base name
+func c39Resolve(encl []string, nm string) int {
+	for i, e := range encl {
+		if c39Base(e) == nm {
+			return i
+		}
+	}
+	return -1
+}
 
 // encl: names of the enclosing blocks in the current function, innermost first
 func (g *c39Gen) block(depth int, encl []string, loops []c39Loop, minLen int) []c39Node {
@@ -223,28 +299,28 @@ func (g *c39Gen) jump(encl []string) c39Node {
 		}
 		return c39Node{K: "break", Name: nm}
 	}
-	switch k := g.r.Intn(10); {
-	case k < 4:
-		return c39Node{K: "break", Name: encl[g.r.Intn(len(encl))]}
+	pick := func() string { return c39Base(encl[g.r.Intn(len(encl))]) }
+	switch k := g.r.Intn(20); {
+	case k < 7:
+		return c39Node{K: "break", Name: pick()}
 	case k < 8:
-		// continue: not the innermost block unless direct continues are wanted
-		if len(encl) > 1 {
-			cand := []string{}
-			for _, nm := range encl[1:] {
-				if nm != encl[0] || g.direct {
-					cand = append(cand, nm)
-				}
+		return c39Node{K: "breakany"}
+	case k < 16:
+		// continue: nested in at least one block, not naming the innermost block, not
+		// resolving to a one-block while - unless the known findings are wanted
+		cand := []string{}
+		for _, e := range encl {
+			nm := c39Base(e)
+			i := c39Resolve(encl, nm)
+			ok := len(encl) >= 2 && i >= 1 && !strings.HasSuffix(encl[i], "!")
+			if ok || g.direct && (i == 0 && !strings.HasSuffix(encl[0], "!")) {
+				cand = append(cand, nm)
 			}
-			if g.direct && g.r.Intn(3) == 0 {
-				cand = append(cand, encl[0])
-			}
-			if len(cand) > 0 {
-				return c39Node{K: "continue", Name: cand[g.r.Intn(len(cand))]}
-			}
-		} else if g.direct {
-			return c39Node{K: "continue", Name: encl[0]}
 		}
-		return c39Node{K: "break", Name: encl[g.r.Intn(len(encl))]}
+		if len(cand) > 0 {
+			return c39Node{K: "continue", Name: cand[g.r.Intn(len(cand))]}
+		}
+		return c39Node{K: "break", Name: pick()}
 	default:
 		return c39Node{K: "return", X: g.r.Intn(10)}
 	}
@@ -252,7 +328,7 @@ func (g *c39Gen) jump(encl []string) c39Node {
 
 func (g *c39Gen) stmt(depth int, encl []string, loops []c39Loop) c39Node {
 	k := g.r.Intn(100)
-	if depth <= 0 && k >= 45 && k < 85 {
+	if depth <= 0 && k >= 45 && k < 88 {
 		k = g.r.Intn(45)
 	}
 	switch {
@@ -278,21 +354,37 @@ func (g *c39Gen) stmt(depth int, encl []string, loops []c39Loop) c39Node {
 		}
 		nd.Body = body
 		return nd
-	case k < 57:
+	case k < 54:
 		nd := g.cond(loops)
 		nd.Body = g.block(depth-1, append([]string{"if"}, encl...), loops, 1)
+		if g.r.Intn(3) == 0 {
+			nd.Else = g.block(depth-1, append([]string{"if"}, encl...), loops, 1)
+		}
 		return nd
-	case k < 69:
+	case k < 59:
+		nd := g.cond(loops)
+		nd.K = "switch"
+		nd.Body = g.block(depth-1, append([]string{"switch"}, encl...), loops, 1)
+		nd.Else = g.block(depth-1, append([]string{"switch"}, encl...), loops, 1)
+		return nd
+	case k < 75:
 		g.nextID++
 		l := c39Loop{g.nextID, 1 + g.r.Intn(3)}
-		return c39Node{K: "foreach", ID: l.id, N: l.n,
-			Body: g.block(depth-1, append([]string{"foreach"}, encl...), append([]c39Loop{l}, loops...), 1)}
-	case k < 78:
-		g.nextID++
-		l := c39Loop{g.nextID, 1 + g.r.Intn(3)}
-		return c39Node{K: "while", ID: l.id, N: l.n,
-			Body: g.block(depth-1, append([]string{"while"}, encl...), append([]c39Loop{l}, loops...), 1)}
-	case k < 85:
+		kinds := []string{"foreach", "foreach", "while", "while", "for", "formap", "while1"}
+		kind := kinds[g.r.Intn(len(kinds))]
+		nm := kind
+		if kind == "while1" {
+			nm = "while!"
+		}
+		return c39Node{K: kind, ID: l.id, N: l.n,
+			Body: g.block(depth-1, append([]string{nm}, encl...), append([]c39Loop{l}, loops...), 1)}
+	case k < 81:
+		kind := "try"
+		if g.r.Intn(3) == 0 {
+			kind = "trypipe"
+		}
+		return c39Node{K: kind, Body: g.block(depth-1, append([]string{kind}, encl...), loops, 2)}
+	case k < 88:
 		g.nextF++
 		f := g.nextF
 		saved := g.outer
@@ -320,14 +412,16 @@ func c39Out(t int) c39Node { return c39Node{K: "out", T: t} }
 func c39Boundary(r *rand.Rand) []c39Node {
 	t := 0
 	out := func() c39Node { t++; return c39Out(t) }
-	kinds := []string{"foreach", "while", "if", "foreach", "while"}
+	kinds := []string{"foreach", "while", "if", "foreach", "while", "for", "formap", "switch", "try", "trypipe"}
 	kind := kinds[r.Intn(len(kinds))]
 	id := 0
 	loop := func(k string, body []c39Node) c39Node {
 		id++
 		switch k {
-		case "if":
-			return c39Node{K: "if", Cond: "true", Body: body}
+		case "if", "try", "trypipe":
+			return c39Node{K: k, Cond: "true", Body: body}
+		case "switch":
+			return c39Node{K: k, Cond: "true", Body: body, Else: []c39Node{out()}}
 		default:
 			return c39Node{K: k, ID: id, N: 2 + r.Intn(2), Body: body}
 		}
@@ -335,6 +429,9 @@ func c39Boundary(r *rand.Rand) []c39Node {
 	// the jump, inside the helper
 	jump := c39Node{K: "break", Name: kind}
 	nested := r.Intn(3) // 0: directly in the function body, 1: in an if, 2: in a loop of another kind
+	if kind != "foreach" && kind != "while" && kind != "for" && kind != "formap" && jump.K == "continue" {
+		jump.K = "break"
+	}
 	if kind == "if" && nested == 1 {
 		nested = 2 // an `if` around the jump would be the block it names
 	}
@@ -374,6 +471,61 @@ func c39Boundary(r *rand.Rand) []c39Node {
 	return main
 }
 
+// c39Pipeline: loops fed by a pipeline stage that keeps producing after the loop was cancelled:
+// `a [1..N] -> foreach` with N much larger than the iteration that jumps, nested in another loop /
+// try block / function; run several times under schedule perturbation.
+func c39Pipeline(r *rand.Rand) []c39Node {
+	t := 0
+	out := func() c39Node { t++; return c39Out(t) }
+	big := 15 + r.Intn(30)
+	m := 1 + r.Intn(3)
+	outerKinds := []string{"foreach", "while", "for", "formap", "if", "try", "trypipe"}
+	ok := outerKinds[r.Intn(len(outerKinds))]
+	var jump c39Node
+	switch k := r.Intn(6); {
+	case k < 2:
+		jump = c39Node{K: "break", Name: "foreach"}
+	case k < 3:
+		jump = c39Node{K: "break", Name: ok}
+	case k < 4:
+		jump = c39Node{K: "return", X: r.Intn(4)}
+	case k < 5 && ok != "if" && ok != "try" && ok != "trypipe" && ok != "foreach":
+		jump = c39Node{K: "continue", Name: ok}
+	default:
+		jump = c39Node{K: "breakany"}
+	}
+	feeder := "foreach"
+	if r.Intn(4) == 0 {
+		feeder = "formap"
+		if jump.K == "break" && jump.Name == "foreach" {
+			jump.Name = "formap"
+		}
+	}
+	innerBody := []c39Node{out(), {K: "if", Cond: "eq", ID: 2, M: m, Body: []c39Node{out(), jump, out()}}}
+	if jump.K == "breakany" { // ends the `if` only: follow it by a named break so that the feeder is cut short
+		innerBody = append(innerBody, c39Node{K: "if", Cond: "eq", ID: 2, M: m + 1, Body: []c39Node{{K: "break", Name: feeder}}})
+	}
+	innerBody = append(innerBody, out())
+	inner := c39Node{K: feeder, ID: 2, N: big, Body: innerBody}
+	if r.Intn(4) == 0 { // a second fed loop nested in the first
+		inner.Body = append([]c39Node{{K: "foreach", ID: 3, N: 10 + r.Intn(10), Body: []c39Node{
+			{K: "if", Cond: "eq", ID: 3, M: 2, Body: []c39Node{{K: "break", Name: "foreach"}}}, out()}}}, inner.Body...)
+	}
+	body := []c39Node{out(), inner, out()}
+	var outer c39Node
+	switch ok {
+	case "if", "try", "trypipe":
+		outer = c39Node{K: ok, Cond: "true", Body: body}
+	default:
+		outer = c39Node{K: ok, ID: 1, N: 2 + r.Intn(2), Body: body}
+	}
+	main := []c39Node{outer, out()}
+	if r.Intn(2) == 0 {
+		main = []c39Node{{K: "call", F: 1, Body: append(main[:1:1], out())}, out()}
+	}
+	return main
+}
+
 var c39Corpus = []c39Case{
 	// the documentation's examples
 	{Class: "corpus", Main: []c39Node{{K: "foreach", ID: 1, N: 3, Body: []c39Node{
@@ -399,6 +551,29 @@ var c39Corpus = []c39Case{
 		c39Out(4)}}, c39Out(5)}}, c39Out(6)}},
 	{Class: "corpus-boundary", Main: []c39Node{{K: "if", Cond: "true", Body: []c39Node{
 		{K: "call", F: 1, Body: []c39Node{c39Out(1), {K: "break", Name: "if"}, c39Out(2)}}, c39Out(3)}}, c39Out(4)}},
+	// fixed defect: `for` / one-block `while` ended by break reported an error and exit number 1, which
+	// ended the surrounding try block
+	{Class: "corpus", Main: []c39Node{{K: "try", Body: []c39Node{{K: "for", ID: 1, N: 3, Body: []c39Node{
+		c39Out(1), {K: "if", Cond: "eq", ID: 1, M: 2, Body: []c39Node{{K: "break", Name: "for"}}}}}, c39Out(2)}}, c39Out(3)}},
+	{Class: "corpus", Main: []c39Node{{K: "try", Body: []c39Node{{K: "while1", ID: 1, N: 3, Body: []c39Node{
+		c39Out(1), {K: "if", Cond: "eq", ID: 1, M: 2, Body: []c39Node{{K: "break", Name: "while"}}}}}, c39Out(2)}}, c39Out(3)}},
+	// known finding 2: `continue while` in a one-block while cuts the block - which is the condition - short
+	{Class: "corpus-while1-continue", Main: []c39Node{{K: "while1", ID: 1, N: 4, Body: []c39Node{
+		{K: "if", Cond: "eq", ID: 1, M: 2, Body: []c39Node{{K: "continue", Name: "while"}}}, c39Out(1)}}, c39Out(2)}},
+	// nameless break, switch as a target, try / trypipe: failed call ends the block, break try, return inside try
+	{Class: "corpus", Main: []c39Node{{K: "foreach", ID: 1, N: 3, Body: []c39Node{c39Out(1),
+		{K: "if", Cond: "eq", ID: 1, M: 2, Body: []c39Node{c39Out(2), {K: "breakany"}, c39Out(3)}}, c39Out(4)}}, c39Out(5)}},
+	{Class: "corpus", Main: []c39Node{{K: "foreach", ID: 1, N: 2, Body: []c39Node{c39Out(1), {K: "breakany"}, c39Out(2)}}, c39Out(3)}},
+	{Class: "corpus", Main: []c39Node{{K: "formap", ID: 1, N: 3, Body: []c39Node{
+		{K: "switch", Cond: "eq", ID: 1, M: 2, Body: []c39Node{c39Out(1), {K: "break", Name: "switch"}, c39Out(2)}, Else: []c39Node{c39Out(3)}}, c39Out(4)}}, c39Out(5)}},
+	{Class: "corpus", Main: []c39Node{{K: "try", Body: []c39Node{c39Out(1),
+		{K: "call", F: 1, Body: []c39Node{c39Out(2), {K: "return", X: 3}, c39Out(3)}}, c39Out(4)}}, c39Out(5)}},
+	{Class: "corpus", Main: []c39Node{{K: "trypipe", Body: []c39Node{{K: "foreach", ID: 1, N: 3, Body: []c39Node{
+		{K: "try", Body: []c39Node{c39Out(1), {K: "if", Cond: "eq", ID: 1, M: 2, Body: []c39Node{{K: "break", Name: "try"}}}, c39Out(2)}}, c39Out(3)}}, c39Out(4)}}, c39Out(5)}},
+	{Class: "corpus", Main: []c39Node{{K: "call", F: 1, Body: []c39Node{{K: "try", Body: []c39Node{c39Out(1), {K: "return", X: 3}, c39Out(2)}}, c39Out(3)}}, c39Out(4)}},
+	{Class: "corpus", Main: []c39Node{{K: "try", Body: []c39Node{{K: "if", Cond: "true", Body: []c39Node{
+		{K: "call", F: 1, Body: []c39Node{{K: "return", X: 2}, c39Out(1)}}, c39Out(2)}}, c39Out(3)}}, c39Out(4)}},
+	{Class: "corpus", Main: []c39Node{{K: "try", Body: []c39Node{{K: "try", Body: []c39Node{c39Out(1), {K: "breakany"}, c39Out(2)}}, c39Out(3)}}, c39Out(4)}},
 	// break if / break out of nested loops / return at the top level
 	{Class: "corpus", Main: []c39Node{{K: "if", Cond: "true", Body: []c39Node{c39Out(1), {K: "break", Name: "if"}, c39Out(2)}}, c39Out(3)}},
 	{Class: "corpus", Main: []c39Node{{K: "foreach", ID: 1, N: 2, Body: []c39Node{{K: "while", ID: 2, N: 3, Body: []c39Node{
@@ -424,6 +599,13 @@ func (c39) Gen(seed int64, tier string, emit func(any)) {
 	for i := 0; i < nb; i++ {
 		emit(c39Case{Main: c39Boundary(r), Class: "boundary"})
 	}
+	np := 60
+	if tier == "thorough" {
+		np = 400
+	}
+	for i := 0; i < np; i++ {
+		emit(c39Case{Main: c39Pipeline(r), Class: "pipeline", Runs: 6 + r.Intn(3)})
+	}
 	for i := 0; i < n; i++ {
 		depth := 2 + r.Intn(3)
 		direct := r.Intn(40) == 0
@@ -439,7 +621,7 @@ func (c39) Gen(seed int64, tier string, emit func(any)) {
 
 func c39HasJump(nodes []c39Node) bool {
 	for _, n := range nodes {
-		if n.K == "break" || n.K == "continue" || n.K == "return" || c39HasJump(n.Body) {
+		if n.K == "break" || n.K == "breakany" || n.K == "continue" || n.K == "return" || c39HasJump(n.Body) || c39HasJump(n.Else) {
 			return true
 		}
 	}
@@ -453,7 +635,35 @@ func (c39) Run(raw json.RawMessage) Result {
 	}
 	prog := c39Program(c.Main)
 	r := RunMurex(prog, 60*time.Second)
-	o := c39Obs{Exit: r.ExitNum, Timeout: r.Timeout, Lines: []string{}}
+	odd := ""
+	if c.Runs > 1 {
+		// the same program under schedule perturbation (lang.VerifSetYield): identical output required
+		for k := 1; k < c.Runs && odd == ""; k++ {
+			var mu sync.Mutex
+			pr := rand.New(rand.NewSource(int64(k)*7919 + int64(len(prog))))
+			lang.VerifSetYield(func(site string) {
+				mu.Lock()
+				x := pr.Intn(8)
+				mu.Unlock()
+				switch {
+				case x < 3:
+					runtime.Gosched()
+				case x < 5:
+					time.Sleep(time.Duration(20+x*30) * time.Microsecond)
+				case x < 6:
+					time.Sleep(400 * time.Microsecond)
+				}
+			})
+			r2 := RunMurex(prog, 60*time.Second)
+			lang.VerifSetYield(nil)
+			if r2.Stdout != r.Stdout || r2.ExitNum != r.ExitNum || r2.Timeout != r.Timeout {
+				odd = fmt.Sprintf("schedule-dependent output (perturbed run %d): %q vs %q", k, r2.Stdout, r.Stdout)
+			}
+		}
+	}
+	// the condition statement of a one-block while prints true / false (without a new line)
+	r.Stdout = strings.ReplaceAll(strings.ReplaceAll(r.Stdout, "true", ""), "false", "")
+	o := c39Obs{Exit: r.ExitNum, Timeout: r.Timeout, Lines: []string{}, Odd: odd}
 	toks := []string{}
 	for _, l := range strings.Split(r.Stdout, "\n") {
 		if l == "" {
@@ -476,6 +686,9 @@ func (c39) Run(raw json.RawMessage) Result {
 	if r.Timeout {
 		toks = append(toks, "TOut 999998")
 	}
+	if odd != "" {
+		toks = append(toks, "TOut 999997")
+	}
 	coq := coqlit.Record("c_prog", c39CoqBlock(c.Main), "c_obs_out", coqlit.List(toks), "c_obs_exit", coqlit.Z(int64(o.Exit)))
 	return Result{Obs: o, Coq: coq, Nontrivial: c39HasJump(c.Main), Class: c.Class}
 }
@@ -488,6 +701,15 @@ func c39Variants(nodes []c39Node, keepLast bool) [][]c39Node {
 		if !(keepLast && i == len(nodes)-1) && len(nodes) > 1 {
 			v := append(append([]c39Node{}, nodes[:i]...), nodes[i+1:]...)
 			out = append(out, v)
+		}
+		if len(nodes[i].Else) > 0 {
+			for _, vb := range c39Variants(nodes[i].Else, nodes[i].K == "switch") {
+				v := append([]c39Node{}, nodes...)
+				nn := nodes[i]
+				nn.Else = vb
+				v[i] = nn
+				out = append(out, v)
+			}
 		}
 		if len(nodes[i].Body) > 0 {
 			for _, vb := range c39Variants(nodes[i].Body, nodes[i].K == "call") {
